@@ -107,13 +107,21 @@ fn val_id(thread: usize, idx: usize) -> u32 {
 
 fn do_send(ch: &Channel<Payload>, id: u32) {
     let c = vsched::call("send", id as i64, 0);
-    ch.send(Payload { id });
+    // send is meant for signal handlers: like a delivery, it must not touch the heap (an
+    // allocator lock is a wait for whoever holds it - possibly the very thread it interrupted)
+    let ((), heap) = crate::alloc::in_delivery(|| ch.send(Payload { id }));
+    if heap > 0 && !std::thread::panicking() {
+        vsched::violate("C08/alloc", format!("send({}) performed {} heap operations", id, heap));
+    }
     vsched::ret(c, 0);
 }
 
 fn do_recv(ch: &Channel<Payload>) -> Option<u32> {
     let c = vsched::call("recv", 0, 0);
-    let r = ch.recv();
+    let (r, heap) = crate::alloc::in_delivery(|| ch.recv());
+    if heap > 0 {
+        vsched::violate("C08/alloc", format!("recv performed {} heap operations", heap));
+    }
     let id = r.as_ref().map(|p| p.id);
     vsched::ret(c, id.map_or(-1, |x| x as i64));
     drop(r);
